@@ -462,7 +462,16 @@ type Source struct {
 	zleft       int
 	armed       bool
 	ended       bool // the end error has been returned once
+	stalled     int  // consecutive (0, nil) reads after the data of a stalling source
+	Runaway     bool // the reader kept reading a stalling source (see ErrRunaway)
 }
+
+// ErrRunaway ends a stalling source after runawayReads consecutive empty
+// reads: the code under test is reading for ever instead of giving up (a hang
+// of the code under test must be a failure, not a time-out of the harness).
+var ErrRunaway = errors.New("wh: reader did not give up on a source that only returns (0, nil)")
+
+const runawayReads = 10000
 
 func (s *Source) Read(p []byte) (int, error) {
 	s.Reads++
@@ -493,6 +502,10 @@ func (s *Source) Read(p []byte) (int, error) {
 	rem := len(s.Data) - s.Pos
 	if rem == 0 {
 		if s.Stall {
+			if s.stalled++; s.stalled > runawayReads {
+				s.Runaway = true
+				return 0, ErrRunaway
+			}
 			return 0, nil
 		}
 		s.ended = true
@@ -538,6 +551,7 @@ type Result struct {
 	Out     []byte `json:"-"`             // bytes the destination accepted during the call
 	Calls   int    `json:"calls"`         // destination Write calls during the call
 	SrcLeft int    `json:"srcleft,omitempty"`
+	Runaway bool   `json:"runaway,omitempty"` // ReadFrom kept reading a stalling source until the harness stopped it
 	Before  View   `json:"before"`
 	After   View   `json:"after"`
 }
@@ -605,7 +619,7 @@ func (e *Exec) Do(a Action) Result {
 			src.End = ErrSource
 		}
 		n, err := e.W.ReadFrom(src)
-		r.N, r.Err, r.SrcLeft = n, ErrClass(err), len(src.Data)-src.Pos
+		r.N, r.Err, r.SrcLeft, r.Runaway = n, ErrClass(err), len(src.Data)-src.Pos, src.Runaway
 	case KFragment:
 		r.Err = ErrClass(e.W.FlushFragment())
 	case KFlush:
